@@ -56,11 +56,22 @@ def run_case_sym(hname, spec, opts):
     def fn():
         ctx.reset()
         return h.run(ctx, spec)
+    witness = {'stub_paths': 0, 'sat': 0, 'unsat': 0, 'unknown': 0}
     try:
         for eng, res in core.explore(fn, max_paths=opts.get('max_paths', 5000),
                                      timeout_ms=opts.get('feas_timeout_ms', 20000), stats=stats,
                                      deadline=t0 + opts.get('case_deadline_s', 600)):
-            pass
+            pins = getattr(eng, 'pins', None)
+            if pins and not isinstance(res, BaseException) and witness['sat'] == 0:
+                # vacuity guard: assumptions + path condition are satisfied by the pinned rational witness on some path
+                import z3
+                witness['stub_paths'] += 1
+                eng.solver.push()
+                eng.solver.add(pins)
+                eng.solver.set('timeout', 10000)
+                r = str(eng.solver.check())
+                eng.solver.pop()
+                witness[r] += 1
     except Violation as v:
         out['status'] = 'candidate'
         out['cand'] = v.cand
@@ -78,10 +89,29 @@ def run_case_sym(hname, spec, opts):
         out['status'] = 'candidate'
         out['cand'] = cand
     out['stats'] = stats.as_dict()
+    out['witness'] = witness
     out['samples'] = ctx.samples
     out['nobl'] = ctx.nobl
     out['wall_s'] = round(time.time() - t0, 3)
     return out
+
+
+def replay_candidate(hname, spec, cand, seed, tries=12):
+    """replay a solver counterexample on the unpatched float backend: first with the model's input values; if that run takes
+    another branch (LAPACK gauge, ties) retry with a few seeded random inputs of the same case.  Only a run that FAILS on the
+    real float backend counts as reproduced; the reproducing input (model values or float seed) is stored in the replay file."""
+    r = run_case_float(hname, spec, cand.get('inputs') or {}, seed)
+    r['float_seed'] = None
+    def same(r):
+        return r['status'] == 'violation' and (cand['kind'] != 'exception' or r['cand'].get('label') == cand.get('label'))
+    if same(r):
+        return r
+    for k in range(tries):
+        r2 = run_case_float(hname, spec, None, 7919 * (k + 1) + seed)
+        if same(r2):
+            r2['float_seed'] = 7919 * (k + 1) + seed
+            return r2
+    return r
 
 
 def run_case_float(hname, spec, values, seed, expect=None):
@@ -122,6 +152,8 @@ def _task(args):
     kind = args[0]
     if kind == 'sym':
         return run_case_sym(*args[1:])
+    if kind == 'replay':
+        return replay_candidate(*args[1:])
     return run_case_float(*args[1:])
 
 
@@ -184,6 +216,7 @@ def main_check(pid, hname, tier, seed, extra_evidence=None, pre_results=None):
     stats = Stats()
     samples, inconcl, cands = [], [], []
     kinds_run = {}
+    wit = {'stub_cases': 0, 'witnessed': 0}
     try:
         futs = {pools.get('sym').submit(_task, ('sym', hname, c, opts)): c for c in cases}
         # translator validation: the same harness on the unpatched float backend with random floats
@@ -201,6 +234,10 @@ def main_check(pid, hname, tier, seed, extra_evidence=None, pre_results=None):
             agg[r['status']] = agg.get(r['status'], 0) + 1
             stats.add(r.get('stats', {}))
             kinds_run[c.get('kind', '?')] = kinds_run.get(c.get('kind', '?'), 0) + 1
+            w = r.get('witness') or {}
+            if w.get('stub_paths'):
+                wit['stub_cases'] += 1
+                wit['witnessed'] += 1 if w.get('sat') else 0
             if r['status'] == 'candidate':
                 cands.append((c, r['cand']))
             elif r['status'] == 'inconclusive':
@@ -227,7 +264,7 @@ def main_check(pid, hname, tier, seed, extra_evidence=None, pre_results=None):
             if cand.get('inputs') is None and cand['kind'] == 'obligation':
                 harness_errors.append({'case': c['id'], 'why': 'no model', 'cand': cand})
                 continue
-            rfuts[pools.get('float').submit(_task, ('float', hname, c, cand.get('inputs') or {}, seed))] = (c, cand)
+            rfuts[pools.get('float').submit(_task, ('replay', hname, c, cand, seed))] = (c, cand)
         for f in as_completed(rfuts):
             c, cand = rfuts[f]
             try:
@@ -239,7 +276,7 @@ def main_check(pid, hname, tier, seed, extra_evidence=None, pre_results=None):
                 harness_errors.append({'case': c['id'], 'why': f"counterexample did not reproduce on float backend (replay status {r['status']}: {r.get('cand') or r.get('detail')})", 'cand': {k: v for k, v in cand.items() if k != 'inputs'}})
                 continue
             sig = finding_signature(h, c, cand)
-            path = write_replay(pid, hname, c, cand | {'float_replay': r.get('cand')})
+            path = write_replay(pid, hname, c, cand | {'float_replay': r.get('cand'), 'float_seed': r.get('float_seed')})
             if any(e.get('signature') == sig for e in known):
                 known_hits.append((sig, c, cand))
             else:
@@ -287,6 +324,8 @@ def main_check(pid, hname, tier, seed, extra_evidence=None, pre_results=None):
             'identical_term_or_concrete_checks': stats.concrete_checks,
             'solver_s': round(stats.solver_s, 2),
             'float_cross_validation': xval, 'replays': len(rfuts),
+            'vacuity_guard': dict(wit, note='cases using LAPACK contract stubs / cases where assumptions+path condition were shown '
+                                  'satisfiable by a pinned exact rational witness (Householder reflectors, rational spectrum)'),
             'functions_encoded': getattr(h, 'FUNCTIONS', []),
             'bounds': getattr(h, 'BOUNDS', {}).get(tier, getattr(h, 'BOUNDS', {})),
             'stubs': _stubs(), 'outside_claim': getattr(h, 'OUTSIDE', []),
@@ -309,6 +348,9 @@ def main_check(pid, hname, tier, seed, extra_evidence=None, pre_results=None):
     if printed:
         return 1
     if harness_errors or inconcl or agg.get('inconclusive'):
+        return 2
+    if wit['stub_cases'] and wit['witnessed'] * 2 < wit['stub_cases']:
+        print(f"INCONCLUSIVE property={pid}: vacuity guard: only {wit['witnessed']}/{wit['stub_cases']} stub cases have a satisfiable witness")
         return 2
     if nontrivial == 0:
         print(f"INCONCLUSIVE property={pid}: no case reached an obligation")
@@ -334,7 +376,8 @@ def replay_file(path):
     sys.path.insert(0, VERIF)
     d = json.load(open(path))
     _init_worker('float')
-    r = run_case_float(d['harness'], d['spec'], d['candidate'].get('inputs') or {}, 0)
+    fs = d['candidate'].get('float_seed')
+    r = run_case_float(d['harness'], d['spec'], None if fs is not None else (d['candidate'].get('inputs') or {}), fs or 0)
     print(json.dumps({k: v for k, v in r.items() if k != 'stats'}, indent=1, default=str))
     if r['status'] == 'violation':
         print(f"VIOLATION property={d['property']} replay={path}")
